@@ -12,6 +12,7 @@ import (
 	"seehuhn.de/go/pdf"
 	"verif/sim/core"
 	"verif/sim/gen"
+	"verif/sim/props/c11"
 	"verif/sim/simdisk"
 	"verif/sim/tape"
 	"verif/sim/wprog"
@@ -42,7 +43,24 @@ func init() {
 var restrict = wprog.Restrict{MaxOps: 7, MaxBody: 2500, SmallValues: true}
 
 func Run(e *core.Env) {
-	side := e.T.Weighted("side", 3, 2)
+	side := e.T.Weighted("side", 3, 2, 1)
+	if side == 2 {
+		// read side on a document from the independent serialiser: indirect
+		// /Filter, /DecodeParms and /Length, reference chains, free objects
+		img, refs, ok := c11.Image(e.T)
+		if !ok {
+			e.Skip("graph not renderable")
+			return
+		}
+		t := e.T
+		opt := &pdf.ReaderOptions{ErrorHandling: pdf.ReaderErrorHandling(t.Draw("read.mode", 3))}
+		eofAtEnd := t.Bool("read.eofAtEnd", 1, 2)
+		e.Probe("read side on a hand-serialised object graph")
+		e.Sig("graph", len(img), len(refs), int(opt.ErrorHandling), eofAtEnd)
+		e.Nontrivial()
+		readEnum(e, img, opt, eofAtEnd, refs)
+		return
+	}
 	cfg := wprog.DrawConfig(e.T, &restrict)
 	// capture the program's sub-tape so that it can be re-executed verbatim
 	e.T.StartCapture()
